@@ -91,6 +91,11 @@ impl AdjustHeightsHeap {
         Some(node)
     }
     pub(crate) fn set_height(&mut self, node: &NodeRef, height: i32) {
+        #[cfg(cormacrelf_incremental_rs_verif)]
+        crate::verif::ev(
+            "set_height",
+            &[("n", crate::verif::nix(node)), ("h", height as i64)],
+        );
         if height > self.max_height_seen {
             self.max_height_seen = height;
             if height > self.max_height_allowed() {
